@@ -29,6 +29,8 @@ def carrier_yaml(address_size=16, endian='little', origin=None, zones=None, data
         'operand_sets': {
             'imm8': {'operand_values': {'i8': {'type': 'numeric', 'argument': {'size': 8, 'byte_align': True}}}},
             'imm16': {'operand_values': {'i16': {'type': 'numeric', 'argument': {'size': 16, 'byte_align': True}}}},
+            'imm4': {'operand_values': {'i4': {'type': 'numeric', 'argument': {'size': 4, 'byte_align': False}}}},
+            'imm12': {'operand_values': {'i12': {'type': 'numeric', 'argument': {'size': 12, 'byte_align': False}}}},
             'reg': {'operand_values': {
                 'ra': {'type': 'register', 'register': 'a', 'bytecode': {'value': 1, 'size': 8}},
                 'rb': {'type': 'register', 'register': 'b', 'bytecode': {'value': 2, 'size': 8}},
@@ -41,6 +43,10 @@ def carrier_yaml(address_size=16, endian='little', origin=None, zones=None, data
                     'operands': {'count': 1, 'operand_sets': {'list': ['imm8']}}},
             'ld16': {'bytecode': {'value': 0xB6, 'size': 8},
                      'operands': {'count': 1, 'operand_sets': {'list': ['imm16']}}},
+            'ld4': {'bytecode': {'value': 0x5, 'size': 4},
+                    'operands': {'count': 1, 'operand_sets': {'list': ['imm4']}}},
+            'ld12': {'bytecode': {'value': 0x9, 'size': 4},
+                     'operands': {'count': 1, 'operand_sets': {'list': ['imm12']}}},
             'mov': {'bytecode': {'value': 0xC0, 'size': 8},
                     'operands': {'count': 1, 'operand_sets': {'list': ['reg']}}},
         },
